@@ -94,6 +94,13 @@ def check08(ctx):
     trace = os.path.join(ctx.scratch, "map.ndjson")
     stores = os.path.join(ctx.scratch, "stores.ndjson")
     run_driver(ctx, drv, ["map", "-seed", str(ctx.seed), "-n", "1500" if quick else "30000", "-steps", "40", "-profile", "c08", "-out", trace, "-stores", stores], timeout=3000)
+    # ... and the directed three-level shapes (separators removed and re-inserted next to key-less middle nodes), whose Store calls
+    # are dumped the same way
+    shapes, stores2, empty = os.path.join(ctx.scratch, "shapes.ndjson"), os.path.join(ctx.scratch, "stores2.ndjson"), os.path.join(ctx.scratch, "empty.ndjson")
+    open(empty, "w").close()
+    run_driver(ctx, drv, ["trans-map", "-profile", "follow", "-seed", str(ctx.seed), "-n", "600" if quick else "12000", "-in", empty, "-out", shapes, "-stores", stores2], timeout=3000)
+    with open(stores, "a") as f:
+        f.write(open(stores2).read())
     ev = [json.loads(l) for l in open(stores)]
     ev.sort(key=lambda e: e["ns"])
     srt = os.path.join(ctx.scratch, "stores_sorted.ndjson")
